@@ -89,10 +89,16 @@ func genWS(r *kit.Rng, wi int, small bool) WS {
 	args := []string{"", p + "Obj1", p + "Obj2", p + "Obj3", p + "ODoc"}
 	res := []string{"", p + "Obj1", p + "Obj2", p + "Obj3"}
 	nc := r.Intn(3)
+	if wi == 0 {
+		nc = 1 + r.Intn(2) // the first workspace always has a command and a query
+	}
 	for i := 0; i < nc; i++ {
 		ws.Fns = append(ws.Fns, Fn{Name: fmt.Sprintf("%sCmd%d", p, i), Param: kit.Pick(r, args), Unl: kit.Pick(r, res), Res: kit.Pick(r, res)})
 	}
 	nq := r.Intn(3)
+	if wi == 0 {
+		nq = 1 + r.Intn(2)
+	}
 	for i := 0; i < nq; i++ {
 		ws.Fns = append(ws.Fns, Fn{Name: fmt.Sprintf("%sQry%d", p, i), Query: true, Param: kit.Pick(r, res), Res: kit.Pick(r, res)})
 	}
@@ -222,25 +228,28 @@ func enumerate(r *kit.Rng, s *Schema) []Edit {
 		for _, f := range ws.Fns {
 			out = append(out, Edit{Kind: "remove_type", WS: wi, Name: f.Name})
 			objs := []string{"", p + "Obj1", p + "Obj2", p + "Obj3"}
-			for _, to := range objs {
-				if f.Query {
-					if to != f.Param {
-						out = append(out, Edit{Kind: "query_param", WS: wi, Name: f.Name, To: to})
+			// each slot is changed alone (the other slots keep their types): void -> type, type -> void, type -> type
+			slot := func(kind, cur string) {
+				for _, to := range objs {
+					if to == cur {
+						continue
 					}
-					if to != f.Res {
-						out = append(out, Edit{Kind: "query_res", WS: wi, Name: f.Name, To: to})
+					tr := "retype"
+					if cur == "" {
+						tr = "set"
+					} else if to == "" {
+						tr = "clear"
 					}
-				} else {
-					if to != f.Param {
-						out = append(out, Edit{Kind: "cmd_param", WS: wi, Name: f.Name, To: to})
-					}
-					if to != f.Unl {
-						out = append(out, Edit{Kind: "cmd_unl", WS: wi, Name: f.Name, To: to})
-					}
-					if to != f.Res {
-						out = append(out, Edit{Kind: "cmd_res", WS: wi, Name: f.Name, To: to})
-					}
+					out = append(out, Edit{Kind: kind, WS: wi, Name: f.Name, To: to, Trans: tr})
 				}
+			}
+			if f.Query {
+				slot("query_param", f.Param)
+				slot("query_res", f.Res)
+			} else {
+				slot("cmd_param", f.Param)
+				slot("cmd_unl", f.Unl)
+				slot("cmd_res", f.Res)
 			}
 		}
 		for wj, o := range s.WSs {
@@ -270,6 +279,7 @@ type caseDesc struct {
 	// observed
 	Errors   []string `json:"observed_errors"`
 	Ignored  []string `json:"observed_after_ignore,omitempty"`
+	TreeDiff []string `json:"real_tree_differs_from_transcription_at,omitempty"`
 	OldNodes int      `json:"old_tree_nodes,omitempty"`
 	NewNodes int      `json:"new_tree_nodes,omitempty"`
 }
@@ -296,15 +306,31 @@ func runCase(s *Schema, e Edit) (c kit.Case, ok bool, err error) {
 	}
 	cerrs := ac.CheckBackwardCompatibility(oldApp, newApp)
 	oldT, newT := realTree(oldApp), realTree(newApp)
-	if !oldT.equal(transcribedTree(oldApp)) || !newT.equal(transcribedTree(newApp)) {
-		return c, false, fmt.Errorf("the harness transcription of buildTree differs from appdefcompat.VerifBuildTree (edit %+v)", e)
+	// cross-check of the real trees against the harness's own transcription of buildTree: a
+	// difference is part of the trace (agrees = false), the run goes on
+	var diffs [][]string
+	for _, pair := range [][2]*Node{{oldT, transcribedTree(oldApp)}, {newT, transcribedTree(newApp)}} {
+		if dp := pair[0].firstDiff(pair[1], nil); dp != nil {
+			diffs = append(diffs, dp)
+		}
 	}
 
 	d := &caseDesc{Schema: s, Edit: e, Claim: &claim, OldNodes: oldT.count(), NewNodes: newT.count()}
 	var terms []string
 	pr := newPrinter()
+	var diffTerms []string
+	for _, dp := range diffs {
+		diffTerms = append(diffTerms, pr.path(dp))
+		d.TreeDiff = append(d.TreeDiff, strings.Join(dp, "/"))
+	}
 	oldRef, newRef := oldT.ref(pr), newT.ref(pr)
 	tagset := map[string]bool{"kind:" + e.Kind: true, "claim:" + claim.Kind: true}
+	if e.Trans != "" {
+		tagset["fn:"+e.Kind+":"+e.Trans] = true
+	}
+	if len(diffs) > 0 {
+		tagset["treediff:real-tree-differs-from-transcription"] = true
+	}
 	if e.Part != "" {
 		tagset["part:"+e.Part] = true
 	}
@@ -363,7 +389,7 @@ func runCase(s *Schema, e Edit) (c kit.Case, ok bool, err error) {
 	var sb strings.Builder
 	claimTerm := claim.coq(pr)
 	sb.WriteString(strings.Join(pr.lets, " "))
-	sb.WriteString(" mkTrace " + oldRef + " " + newRef + " " + claimTerm + " " + kit.List(terms) + " " + kit.List(ignTerms))
+	sb.WriteString(" mkTrace " + oldRef + " " + newRef + " " + claimTerm + " " + kit.List(terms) + " " + kit.List(ignTerms) + " " + kit.List(diffTerms))
 	var tags []string
 	for t := range tagset {
 		tags = append(tags, t)
@@ -395,11 +421,12 @@ func Generate(seed uint64, n int, tier string, corpusDir string, out *kit.Out) e
 		}
 	}
 	r := kit.NewRng(seed)
-	perSchema := 14
+	perSchema := 16
 	if tier == "thorough" {
 		perSchema = 1 << 30 // every applicable position of every edit kind
 	}
 	emitted := 0
+	var deferred []kit.Case
 	for emitted < n {
 		cr := r.Fork()
 		s := genSchema(cr)
@@ -426,7 +453,7 @@ func Generate(seed uint64, n int, tier string, corpusDir string, out *kit.Out) e
 			byKind := map[string][]Edit{}
 			var kinds []string
 			for _, e := range edits {
-				k := e.Kind + "/" + e.Part
+				k := e.Kind + "/" + e.Part + "/" + e.Trans
 				if _, ok := byKind[k]; !ok {
 					kinds = append(kinds, k)
 				}
@@ -450,9 +477,18 @@ func Generate(seed uint64, n int, tier string, corpusDir string, out *kit.Out) e
 			if !ok {
 				continue
 			}
-			out.Emit(c)
 			emitted++
+			// query argument / result edits (known finding F15b) are written last so that, when the
+			// code is broken elsewhere, the first violations bin/check lists are not its look-alikes
+			if e.Kind == "query_param" || e.Kind == "query_res" {
+				deferred = append(deferred, c)
+				continue
+			}
+			out.Emit(c)
 		}
+	}
+	for _, c := range deferred {
+		out.Emit(c)
 	}
 	return nil
 }
